@@ -1665,6 +1665,8 @@ def correspond(run: Run) -> None:
     function_items_pass(run, cases, run.scale(100, 1500))
     nodeset_pass(run, cases, run.scale(100, 1500))
     context_item_pass(run, cases, run.scale(30, 500))
+    from harness.c09_tokenize1 import tokenize1_pass      # one-argument fn:tokenize (Props/C09Tokenize1.lean)
+    tokenize1_pass(run, run.scale(1200, 25000), err_canon)
 
 
 def search(run: Run):
@@ -1705,7 +1707,8 @@ def search(run: Run):
     for i in range(0, len(cases), 5000):
         compare(sub, cases[i:i + 5000])
     run.notes.append(f'search: {len(cases)} exhaustive small-scope cases, {len(sub.disagreements)} disagreements')
-    return sub.disagreements
+    from harness.c09_tokenize1 import tokenize1_search
+    return sub.disagreements + tokenize1_search(run, err_canon)
 
 
 def _still_fails(cands: list, what: str, parser: str) -> list:
@@ -1720,7 +1723,7 @@ def _still_fails(cands: list, what: str, parser: str) -> list:
 
 
 def shrink(d: Disagreement) -> Disagreement:
-    if not isinstance(d.case, dict) or 'op' not in d.case or d.case['op'] in ('conv', 'ctoken', 'hctoken', 'law', 'function-item', 'cp2sx', 'nodeset', 'context-item') or 'history' in d.case:
+    if not isinstance(d.case, dict) or 'op' not in d.case or d.case['op'] in ('tok1', 'conv', 'ctoken', 'hctoken', 'law', 'function-item', 'cp2sx', 'nodeset', 'context-item') or 'history' in d.case:
         return d
     best = d
     import time
@@ -1861,12 +1864,17 @@ def body(run: Run) -> int:
     if run.stats.extra['case_tables']['probe_vs_property_mismatch']:
         run.broken.append('translator:C09 Cased observed through str.lower() != (Lowercase|Uppercase|Lt) minus Case_Ignorable at '
                           + str(run.stats.extra['case_tables']['probe_vs_property_mismatch']))
-    run.prove(['EPV.Props.C09', 'EPV.Props.C09Tables'], ['EPV.Model.Strings', 'EPV.Spec.FOStrings', 'EPV.Gen.C09Case'])
+    run.prove(['EPV.Props.C09', 'EPV.Props.C09Tables', 'EPV.Props.C09Tokenize1'],
+              ['EPV.Model.Strings', 'EPV.Spec.FOStrings', 'EPV.Gen.C09Case', 'EPV.Model.StringsTokenize1', 'EPV.Spec.FOTokenize1'])
     if getattr(run, 'replay', None):
         data = json.loads(Path(run.replay).read_text())
         fi = data.get('failing_input') or {}
         case = fi.get('case')
-        if isinstance(case, dict) and 'op' in case:
+        if isinstance(case, dict) and case.get('op') == 'tok1':
+            from harness.c09_tokenize1 import check_cases, make_eval
+            a0 = case['args'][0]
+            check_cases(run, [None if a0 is None else ''.join(chr(c) for c in a0)], make_eval(err_canon))
+        elif isinstance(case, dict) and 'op' in case:
             compare(run, [{'op': case['op'], 'args': case['args']}])
         return run.finish('proof', shrink=None, search=None)
     try:
